@@ -253,7 +253,8 @@ func (se *session) initHS() map[string]any {
 	scfg := &tls.Config{Certificates: []tls.Certificate{crt}, MinVersion: vers, MaxVersion: vers,
 		CipherSuites: []uint16{suite}, SessionTicketsDisabled: true, DynamicRecordSizingDisabled: !sc.Dyn}
 	if vers != tls.VersionTLS13 {
-		tls.VerifForceSuite12(scfg, suite)
+		// the in-tree server never selects the legacy ChaCha20 / EnableWeakCiphers suites by itself
+		tls.VerifSetOverride(scfg, &tls.VerifOverride{ForceSuite12: suite})
 	}
 	ccfg := &tls.Config{ServerName: "example.com", RootCAs: pki.Pool, MinVersion: vers, MaxVersion: vers,
 		DynamicRecordSizingDisabled: !sc.Dyn}
